@@ -23,8 +23,13 @@ PROP = dict(
              coverage=True, timeout=dict(quick=300, thorough=1500)),
         dict(module="CasketGrammarSim", cfg="CasketGrammarSim.cfg", emit=True, workers=4,
              simulate=dict(quick=dict(num=1500, depth=80), thorough=dict(num=20000, depth=80)), timeout=dict(quick=300, thorough=1500)),
+        # (5) extension: the JSON form (json.go ToJSON / FromJSON as one dispenser walk + one pass over the JSON) and the
+        #     Dispenser calls of the setup functions, see notes/CasketJson.md
+        dict(module="CasketJson", cfg=dict(quick="CasketJson_quick.cfg", thorough="CasketJson_thorough.cfg"), emit=True, workers=8,
+             coverage=True, coverage_ignore=["Finished", "Init"], timeout=dict(quick=300, thorough=900)),
     ],
-    go=[dict(pkg="c10", test="TestC10", timeout=dict(quick=600, thorough=3000))],
+    go=[dict(pkg="c10", test="TestC10", timeout=dict(quick=600, thorough=3000)),
+        dict(pkg="cx10json", test="TestCx10Json", timeout=dict(quick=300, thorough=900))],
     exhaustive=dict(quick=False, thorough=False),
     technique="TLA+ specs Lexer / ImportGraph / ParserTotal / CasketGrammar model-checked (and simulated) by TLC; every emitted case replayed "
               "against casketfile.NewDispenser / casketfile.Parse in watchdogged worker processes",
